@@ -18,7 +18,8 @@ MANIFEST = dict(
          'union field being spec errors; '
          '(example_roundtrip_partial, example_roundtrip_wire_partial, example_union_roundtrip_partial) the document computed for a '
          'reference-free example over scalar members decodes strictly (json_compat_obj_decode) and json_compat_obj_encode gives its '
-         'members back. The full statements are FALSE of the code; the excluded cases are proved as witnesses on the model '
+         'members back; (example_union_null_struct_roundtrip) a union example `t = null` for a member of nullable struct type is '
+         'accepted, is the tag alone, and round-trips. The full statements are FALSE of the code; the excluded cases are proved as witnesses on the model '
          '(default_pattern_witness: compile-time re.match is a prefix match, the runtime matches the whole string; '
          'default_timestamp_witness / default_bytes_witness: the default stays text; example_bool_for_int_witness) and re-found on the '
          'real code by the direct oracle. Tied to the code by differential runs (real compiler, real generated classes, real '
